@@ -12,7 +12,7 @@
    non-contiguous binned array (slices, gaps, permuted storage). *)
 From Coq Require Import ZArith String List Lia.
 From Verif.Sem Require Import Field Val.
-From Verif.C06 Require Import Model Proofs.
+From Verif.C06 Require Import Model Proofs ModelH ProofsH.
 From Run Require Import GenUtils Tie.
 Import ListNotations.
 
@@ -108,6 +108,93 @@ Theorem C06_elem_of_binned : forall (O : Fops) (e : elem O) (u : unit O) (d : dt
   elem_unit O (VVar O e u d) = VUnit O u /\ elem_dtype O (VVar O e u d) = VDType O d.
 Proof. intros O e u d. exact (conj (elem_unit_selects O e u d) (elem_dtype_selects O e u d)). Qed.
 
+(* ---- CALL HISTORIES (ModelH.v): events carry named coordinates; [convert_named k o t] is one
+   convert(origin o -> target t) with dense kernel k: a name that already is an event coordinate is kept
+   (fetched), otherwise t is computed from o with the geometry of the event's bin and added. *)
+
+(* converting the result of a conversion again, to the same target, changes nothing *)
+Theorem C06_reconvert_idempotent : forall (V W G : Type) (k : V -> G -> V) (o t : string) (b : binned (named V) W G),
+  convert_named k o t (convert_named k o t b) = convert_named k o t b.
+Proof. exact reconvert_idempotent. Qed.
+
+(* ... so the second conversion again gives every event the dense value, weights and variances unchanged *)
+Theorem C06_reconvert_dense_value : forall (V W G : Type) (k : V -> G -> V) (o t : string) (b : binned (named V) W G)
+    (i j : nat) (e : event (named V) W) (g : G) (c : V),
+  non_overlapping b ->
+  nth_error (buffer b) j = Some e -> in_bin b i j -> geom_of b i = Some g ->
+  lookup t (coord e) = None -> lookup o (coord e) = Some c ->
+  exists e', nth_error (buffer (convert_named k o t (convert_named k o t b))) j = Some e' /\
+             lookup t (coord e') = Some (k c g) /\ lookup o (coord e') = Some c /\
+             weight e' = weight e /\ variance e' = variance e.
+Proof. exact reconvert_dense_value. Qed.
+
+(* an event coordinate named like the target that is already there (earlier conversion, precomputed in the
+   file) is what the event carries afterwards: the event is unchanged *)
+Theorem C06_existing_target_kept : forall (V W G : Type) (k : V -> G -> V) (o t : string) (b : binned (named V) W G)
+    (i j : nat) (e : event (named V) W) (g : G) (v : V),
+  non_overlapping b ->
+  nth_error (buffer b) j = Some e -> in_bin b i j -> geom_of b i = Some g ->
+  lookup t (coord e) = Some v ->
+  nth_error (buffer (convert_named k o t b)) j = Some e.
+Proof. exact existing_target_kept. Qed.
+
+(* every coordinate an event carried before a call (unrelated ones, the origin, leftovers of earlier
+   conversions) it carries afterwards with the same value; weight and variance too — any event, in a bin or not *)
+Theorem C06_named_keeps_coordinates : forall (V W G : Type) (k : V -> G -> V) (o t : string) (b : binned (named V) W G)
+    (j : nat) (e : event (named V) W) (n : string) (v : V),
+  nth_error (buffer b) j = Some e -> lookup n (coord e) = Some v ->
+  exists e', nth_error (buffer (convert_named k o t b)) j = Some e' /\ lookup n (coord e') = Some v /\
+             weight e' = weight e /\ variance e' = variance e.
+Proof. exact named_keeps_coordinates. Qed.
+
+Theorem C06_named_preserves : forall (V W G : Type) (k : V -> G -> V) (o t : string) (b : binned (named V) W G),
+  let b' := convert_named k o t b in
+  begin_ b' = begin_ b /\ end_ b' = end_ b /\ geom b' = geom b /\ shape b' = shape b /\
+  List.length (buffer b') = List.length (buffer b) /\
+  map (@weight _ _) (buffer b') = map (@weight _ _) (buffer b) /\
+  map (@variance _ _) (buffer b') = map (@variance _ _) (buffer b) /\
+  (forall i j, in_bin b' i j <-> in_bin b i j).
+Proof. exact named_preserves. Qed.
+
+(* chains o1 -> t1 -> t2 (tof -> wavelength -> energy): the dense kernels composed, with the bin's geometry *)
+Theorem C06_chain_pointwise : forall (V W G : Type) (k1 k2 : V -> G -> V) (o1 t1 t2 : string) (b : binned (named V) W G)
+    (i j : nat) (e : event (named V) W) (g : G) (c : V),
+  non_overlapping b ->
+  nth_error (buffer b) j = Some e -> in_bin b i j -> geom_of b i = Some g ->
+  t1 <> t2 -> o1 <> t2 ->
+  lookup o1 (coord e) = Some c -> lookup t1 (coord e) = None -> lookup t2 (coord e) = None ->
+  exists e', nth_error (buffer (convert_named k2 t1 t2 (convert_named k1 o1 t1 b))) j = Some e' /\
+             lookup t2 (coord e') = Some (k2 (k1 c g) g) /\
+             lookup t1 (coord e') = Some (k1 c g) /\ lookup o1 (coord e') = Some c /\
+             weight e' = weight e /\ variance e' = variance e.
+Proof. exact chain_pointwise. Qed.
+
+(* two targets from one origin (tof -> t1, then tof -> t2 on the result): the leftover t1 does not disturb t2 *)
+Theorem C06_fork_pointwise : forall (V W G : Type) (k1 k2 : V -> G -> V) (o t1 t2 : string) (b : binned (named V) W G)
+    (i j : nat) (e : event (named V) W) (g : G) (c : V),
+  non_overlapping b ->
+  nth_error (buffer b) j = Some e -> in_bin b i j -> geom_of b i = Some g ->
+  t1 <> t2 ->
+  lookup o (coord e) = Some c -> lookup t2 (coord e) = None ->
+  exists e', nth_error (buffer (convert_named k2 o t2 (convert_named k1 o t1 b))) j = Some e' /\
+             lookup t2 (coord e') = Some (k2 c g) /\ lookup o (coord e') = Some c.
+Proof. exact fork_pointwise. Qed.
+
+(* satisfiable: the 7-event example with named coordinates, event 5 in bin 3 (geometry 200) *)
+Local Open Scope nat_scope.
+Example C06_history_nonvacuous :
+  non_overlapping ex_named /\ in_bin ex_named 3 5 /\ geom_of ex_named 3 = Some 200 /\
+  (exists e c, nth_error (buffer ex_named) 5 = Some e /\ lookup "tof"%string (coord e) = Some c /\
+               lookup "wavelength"%string (coord e) = None /\ lookup "energy"%string (coord e) = None) /\
+  "wavelength"%string <> "energy"%string /\ "tof"%string <> "energy"%string.
+Proof.
+  split; [exact (proj2 (proj2 ex_wf))|].
+  split; [exists 5, 6; split; [reflexivity | lia]|].
+  split; [reflexivity|].
+  split; [eexists; eexists; repeat split; reflexivity|].
+  split; discriminate.
+Qed.
+
 (* the hypotheses are satisfiable: 7 events, a 2 x 3 grid stored out of order with an empty bin and a gap *)
 Local Open Scope nat_scope.
 Example C06_nonvacuous :
@@ -132,3 +219,10 @@ Print Assumptions C06_edges_bracket.
 Print Assumptions C06_compact_view.
 Print Assumptions C06_layout_checks_sound.
 Print Assumptions C06_elem_of_binned.
+Print Assumptions C06_reconvert_idempotent.
+Print Assumptions C06_reconvert_dense_value.
+Print Assumptions C06_existing_target_kept.
+Print Assumptions C06_named_keeps_coordinates.
+Print Assumptions C06_named_preserves.
+Print Assumptions C06_chain_pointwise.
+Print Assumptions C06_fork_pointwise.
